@@ -171,6 +171,13 @@ def rule_canon(ctx):
     C10.rule_idemp(ctx)
 
 
+def rule_build_frame(ctx):
+    """'On success the accessors return what was last set for each field': build() may change the stored fields only through
+    the documented normalisers."""
+    from .common import build_frame_obligations
+    build_frame_obligations(ctx, "BUILD-FRAME")
+
+
 def rule_qm(ctx):
     """'later calls override earlier ones', 'accessors return what was last set' for qualifiers rest on the qualifier map's
     representation invariant (C11)."""
@@ -183,6 +190,7 @@ RULES = [
     ("IDEMP", rule_canon, 5),
     ("EFFECT", rule_effect, 17),
     ("BUILD-SUCCESS", rule_build_success, 10),
+    ("BUILD-FRAME", rule_build_frame, 4),
     ("AGREE-B", rule_agree_b, 20),
 ]
 
